@@ -7,6 +7,8 @@
    reader, compared with the composed model of model/System.v). *)
 From Coq Require Import List ZArith Bool Arith.
 From TR Require Import model.Writer model.Cptv model.Codec proofs.CptvProofs proofs.CodecProofs.
+(* constants and wiring read from the Go sources on every run *)
+From TR Require Import proofs.FactsDeps.
 Import ListNotations.
 Open Scope Z_scope.
 
